@@ -45,12 +45,13 @@ pub struct SpecGen<'a> {
     /// allOf components whose own properties must not repeat a property of the objects they extend (one scope, D)
     pending_allof: Vec<String>,
     used_keyword_ids: Vec<String>,
+    prev_ids: Vec<String>,
 }
 
 fn r(name: &str) -> Value { json!({"$ref": format!("#/components/schemas/{name}")}) }
 
 impl<'a> SpecGen<'a> {
-    pub fn new(rng: &'a mut Rng, opts: GenOpts) -> Self { SpecGen { rng, opts, names: vec![], kinds: vec![], features: vec![], pending_allof: vec![], used_keyword_ids: vec![] } }
+    pub fn new(rng: &'a mut Rng, opts: GenOpts) -> Self { SpecGen { rng, opts, names: vec![], kinds: vec![], features: vec![], pending_allof: vec![], used_keyword_ids: vec![], prev_ids: vec![] } }
 
     fn feat(&mut self, f: &str) { if !self.features.iter().any(|x| x == f) { self.features.push(f.to_string()); } }
 
@@ -68,7 +69,7 @@ impl<'a> SpecGen<'a> {
             6 => json!({"type": "string", "format": "uuid"}),
             7 | 8 => json!({"type": "integer"}),
             9 => json!({"type": "integer", "x-null-as-zero": true}),
-            10 => json!({"type": "integer", "x-format": "date"}),
+            10 => if self.names.len() % 3 == 2 { json!({"type": "integer", "x-format": "date", "x-null-as-zero": true}) } else { json!({"type": "integer", "x-format": "date"}) },
             11 => json!({"type": "number"}),
             12 => json!({"type": "integer", "format": "int32"}),
             _ => json!({"type": "boolean"}),
@@ -266,6 +267,14 @@ impl<'a> SpecGen<'a> {
                 };
                 self.feat("risky_operation_id");
             }
+            // an id that extends an earlier one by a word the generator itself appends to names (no rng draw: the
+            // choice is a function of the position, so that the rest of the document is as before)
+            if !self.prev_ids.is_empty() && (idx + self.names.len()) % 4 == 3 {
+                let suffix = ["Request", "Required", "Response", "_request", "Item"][(idx + self.names.len() / 4) % 5];
+                id = format!("{}{suffix}", self.prev_ids[0]);
+                self.feat("operation_id_extends_another");
+            }
+            self.prev_ids.push(id.clone());
             op.insert("operationId".into(), json!(id));
         } else { self.feat("no_operation_id"); }
         if self.opts.docs {
@@ -273,6 +282,13 @@ impl<'a> SpecGen<'a> {
             if self.rng.chance(1, 2) { op.insert("description".into(), json!(*self.rng.pick(DESCS))); }
             if self.rng.chance(1, 5) { op.insert("externalDocs".into(), json!({"url": "https://docs.example.com/op"})); }
             if self.rng.chance(1, 10) { op.insert("summary".into(), json!("same text")); op.insert("description".into(), json!("same text")); }
+            // a description that begins with the words of the summary and goes on (position-determined, no rng draw)
+            if idx % 3 == 1 {
+                if let (Some(su), Some(_)) = (op.get("summary").and_then(|x| x.as_str()).map(|x| x.to_string()), op.get("description")) {
+                    op.insert("description".into(), json!(format!("{su} that the caller may see. A second sentence follows.")));
+                    self.feat("description_extends_summary");
+                }
+            }
         }
         let mut params = vec![];
         for p in path_params { if !shared.contains(p) { params.push(self.param(p, "path", true)); } }
